@@ -19,6 +19,10 @@ type RenderOpts struct {
 	// BlankBeforeComment: never write a comment directly behind an owner, class or type token
 	// (known finding comment-adjacent-token); OnExcluded is called per replaced draw.
 	BlankBeforeComment bool
+	// NoCommentBeforeKeywordRdata: no comment inside parentheses in front of an RDATA token that
+	// spells a type or class keyword (known finding comment-resets-rrtype). KeywordLike decides.
+	NoCommentBeforeKeywordRdata bool
+	KeywordLike                 func(token string) bool
 	OnExcluded         func(class string)
 }
 
@@ -39,6 +43,8 @@ type renderer struct {
 	den *Denotation
 	o   RenderOpts
 	dev map[string]int
+
+	noComment bool // the next line break inside parentheses must not carry a comment
 }
 
 func (r *renderer) n(k int) int {
@@ -175,11 +181,11 @@ func (r *renderer) blanks() string {
 		return " "
 	}
 	switch r.n(6) {
-	case 0:
+	case 5:
 		return "\t"
-	case 1:
+	case 4:
 		return "  "
-	case 2:
+	case 3:
 		return " \t "
 	}
 	return " "
@@ -204,9 +210,9 @@ func (r *renderer) kwCase(s string) string {
 		return s
 	}
 	switch r.n(4) {
-	case 0:
+	case 2:
 		return strings.ToLower(s)
-	case 1:
+	case 3:
 		b := []byte(s)
 		for i, c := range b {
 			if c >= 'A' && c <= 'Z' && r.n(2) == 0 {
@@ -272,7 +278,7 @@ func (r *renderer) unitCase(c byte) byte {
 
 // spellLabel writes one label; mostly canonical, sometimes with \DDD or \c re-spellings.
 func (r *renderer) spellLabel(l []byte) string {
-	if r.o.Plain || r.n(8) != 0 {
+	if r.o.Plain || r.n(8) != 7 {
 		return wm.EscLabel(l)
 	}
 	r.use("label-respelled")
@@ -280,9 +286,9 @@ func (r *renderer) spellLabel(l []byte) string {
 	for _, b := range l {
 		must := strings.IndexByte(`. '@;()"\$`, b) >= 0 || b < '!' || b > '~'
 		switch k := r.n(4); {
-		case b < '!' || b > '~' || k == 0:
+		case b < '!' || b > '~' || k == 3:
 			fmt.Fprintf(&sb, "\\%03d", b)
-		case must || (k == 1 && !isDig(b)):
+		case must || (k == 2 && !isDig(b)):
 			sb.WriteByte('\\')
 			sb.WriteByte(b)
 		default:
@@ -440,7 +446,7 @@ func (s *recSpeller) Str(b []byte) string {
 		s.r.use("txt-unquoted")
 		return string(b)
 	}
-	if s.r.o.Plain || s.r.n(6) != 0 {
+	if s.r.o.Plain || s.r.n(6) != 5 {
 		return `"` + EscTxt(b) + `"`
 	}
 	s.r.use("txt-respelled")
@@ -448,9 +454,9 @@ func (s *recSpeller) Str(b []byte) string {
 	sb.WriteByte('"')
 	for _, c := range b {
 		switch k := s.r.n(5); {
-		case c < ' ' || c > '~' || k == 0:
+		case c < ' ' || c > '~' || k == 4:
 			fmt.Fprintf(&sb, "\\%03d", c)
-		case c == '"' || c == '\\' || (k == 1 && !isDig(c)):
+		case c == '"' || c == '\\' || (k == 3 && !isDig(c)):
 			sb.WriteByte('\\')
 			sb.WriteByte(c)
 		default:
@@ -683,10 +689,22 @@ func (r *renderer) record(it *Item, facts []RecFact) (string, error) {
 	if owner.Kind == Prev {
 		sb.WriteString(r.blanks())
 	}
+	// noComment[i]: no comment may be written in front of token i
+	noComment := make([]bool, len(toks)+1)
+	if r.o.NoCommentBeforeKeywordRdata && r.o.KeywordLike != nil {
+		first := len(toks) - len(rd)
+		later := false
+		for i := len(toks) - 1; i >= first; i-- {
+			later = later || r.o.KeywordLike(toks[i])
+			noComment[i] = later
+		}
+	}
 	for i, tk := range toks {
+		r.noComment = noComment[i]
 		sb.WriteString(r.sep(parens, &open, kw[i]))
 		sb.WriteString(tk)
 	}
+	r.noComment = false
 	if parens && !open && r.p(30) {
 		// a group that holds nothing but a line break before the end
 		sb.WriteString(r.blanks() + "(")
@@ -700,6 +718,12 @@ func (r *renderer) record(it *Item, facts []RecFact) (string, error) {
 // lineBreak is a newline inside parentheses, optionally preceded by a comment.
 func (r *renderer) lineBreak() string {
 	if r.p(35) {
+		if r.noComment {
+			if r.o.OnExcluded != nil {
+				r.o.OnExcluded("comment-resets-rrtype")
+			}
+			return "\n"
+		}
 		r.use("comment-in-parens")
 		return r.comment() + "\n"
 	}
